@@ -37,10 +37,10 @@ EPS = np.finfo(float).eps
 
 def plan(tier, seed):
     if tier == "quick":
-        kinds = {"pair": 16000, "tree": 3000, "compiled": 1800}
+        kinds = {"pair": 16000, "tree": 3000, "compiled": 1800, "refined": 160}
         per = 2000
     else:
-        kinds = {"pair": 1500000, "tree": 200000, "compiled": 60000}
+        kinds = {"pair": 1500000, "tree": 200000, "compiled": 60000, "refined": 4000}
         per = 50000
     sh = common.shards(kinds, per_shard=per, tier=tier, seed=seed)
     # compiled shards pay the numba compilation once each: keep them few
@@ -65,6 +65,8 @@ def _drop(rng, dim, cls, *, zero=False):
 
 
 def gen(rng, kind, tier):
+    if kind == "refined":
+        return {"dim": int(rng.choice([1, 2, 2, 3])), "seed": int(rng.integers(1 << 30)), "workers": bool(rng.random() < 0.15)}
     dim = int(rng.integers(1, 4))
     cls = str(rng.choice(["SphericalDroplet", "DiffuseDroplet"]))
     if kind in ("pair", "compiled"):
@@ -233,7 +235,50 @@ def compiled_merge(cls, dtype):
     return f
 
 
+def judge_refined(case, rec):
+    """Operands that come out of the image analysis (refined droplets) are droplets like any other:
+    merging them must conserve volume and centre of mass as well."""
+    import droplets
+    import pde
+
+    r = np.random.default_rng(case["seed"])
+    dim = case["dim"]
+    n = {1: 48, 2: 28, 3: 14}[dim]
+    grid = pde.UnitGrid([n] * dim, periodic=bool(r.integers(0, 2)))
+    Ra, Rb = float(r.uniform(2.5, 3.5)), float(r.uniform(2.0, 3.0))
+    ca = np.full(dim, n * 0.27) + r.uniform(-0.5, 0.5, dim)
+    cb = np.full(dim, n * 0.72) + r.uniform(-0.5, 0.5, dim)
+    em = droplets.Emulsion([droplets.DiffuseDroplet(ca, Ra, 0.9), droplets.DiffuseDroplet(cb, Rb, 1.1)])
+    field = em.get_phasefield(grid)
+    kw = {"num_processes": 2} if case.get("workers") else {}
+    loc = common.monitored(rec, "locate_droplets(refine)", droplets.locate_droplets, field, refine=True, **kw)
+    if not loc.ok or len(loc.result) != 2:
+        rec.count("refined_operands_not_available")  # locating is C05's/C09's subject
+        return
+    a, b = loc.result[0], loc.result[1]
+    label = f"operands returned by locate_droplets(refine=True{', num_processes=2' if kw else ''}) on a {dim}-d grid: {a} and {b}"
+    (pa, ra, wa), (pb, rb, wb) = _state(a), _state(b)
+    Va, Vb = vol(ra, dim), vol(rb, dim)
+    com = (Va * pa + Vb * pb) / (Va + Vb)
+    ba = common.droplet_bytes(b)
+    c = common.monitored(rec, "merge", a.merge, b)
+    if rec.check(c.ok, "no-exception", f"merge raised {common.exc_text(c.exc) if c.exc else ''}; {label}"):
+        pm, rm, wm = _state(c.result)
+        rec.check(abs(vol(rm, dim) - Va - Vb) <= 1e-12 * (Va + Vb), "volume-additive", f"merged volume {vol(rm, dim)!r} != {Va!r}+{Vb!r}; {label}")
+        rec.check(bool(np.all(np.abs(pm - com) <= 1e-12 * n)), "centre-of-mass", f"merged centre {pm.tolist()} != {com.tolist()}; {label}")
+        c2 = common.monitored(rec, "merge(inplace)", a.merge, b, inplace=True)
+        if rec.check(c2.ok, "no-exception", f"in-place merge raised {common.exc_text(c2.exc) if c2.exc else ''}; {label}"):
+            p3, r3, w3 = _state(a)
+            rec.check(close(p3, pm, n) and close(r3, rm, rm), "paths-agree", f"in-place ({p3.tolist()},{r3}) != out-of-place ({pm.tolist()},{rm}); {label}")
+            rec.check(common.droplet_bytes(b) == ba, "operands-unchanged", f"in-place merge modified the other operand; {label}")
+    rec.evaluated(nontrivial=True)
+    rec.count(f"refined_operands:dim{dim}")
+
+
 def run(case, rec):
+    if case["kind"] == "refined":
+        judge_refined(case, rec)
+        return
     if case["kind"] == "pair":
         judge_pair(case, rec)
     elif case["kind"] == "compiled":
